@@ -1,17 +1,29 @@
 import Proofs.C03Thm
+import Proofs.C03Cas
 import Proofs.C03P
+import Proofs.C03PChange
 /-!
 # C03 — ring state merge is a CRDT (property theorems)
 
 Model: `Model/C03.lean` (`Desc.mergeWithTime`) and `Model/C03P.lean` (`PartitionRingDesc.mergeWithTime`).
-The property's provisos are made explicit:
+The vocabulary of the statements (`rk`, `rkO`, `Univ`, `Drawn`) is defined in `Model/C03.lean`.
+The property's provisos are made explicit — and they are STRONGER than the property text reads:
 
-* `Univ U`   — every (instance, timestamp, tombstone-ness) denotes ONE content `U id ts left`, contents
-               are normalised (sorted duplicate-free tokens, tombstones hold none) and no two
-               instances ever claim the same token;
+* `Univ U`   — every (instance, timestamp, tombstone-ness) denotes ONE content `U id ts left`; contents
+               are normalised (sorted duplicate-free tokens, tombstones hold none); and no token is EVER
+               claimed by two different instance ids — at any pair of timestamps, so also not at
+               disjoint times: a token handed over from one instance to another is outside every
+               theorem below, and convergence really fails there
+               (`merge_diverges_on_token_handover`);
 * `Drawn U d` — `d` has unique ids, every timestamp is ≥ 1 (the code reads a missing entry as
                timestamp 0, so an entry at timestamp 0 can never be accepted: see
-               `merge_comm_fails_at_zero`), and every entry is `U`'s content for its key.
+               `merge_comm_fails_at_zero`), and every entry is `U`'s content for its key. In particular
+               the RECEIVER of a merge is already normalised (the code normalises only the incoming
+               descriptor: `merge_comm_fails_on_unnormalised_receiver`).
+
+Under `Univ.noclash` no merge of drawn descriptors ever meets a token collision, so conflict
+resolution (`resolve`) is dead code in all instance-ring theorems of this file
+(`conflict_resolution_dead_in_universe`); resolution is C05's subject.
 
 "Same content" is equality of the `get?` view (a Go map has no order), for every key.
 -/
@@ -80,6 +92,35 @@ theorem converge_regroup (hU : Univ U) {s x y : Desc} (hs : Drawn U s) (hx : Dra
     (k : String) : get? (mergeState s (mergeState x y)) k = get? (mergeState (mergeState s x) y) k :=
   (merge_assoc_view hU hs hx hy k).symm
 
+/-- under the provisos conflict resolution never runs: the map built by the merge loop is collision-free,
+so `resolve` is dead code in every theorem above (token collisions are C05's subject) -/
+theorem conflict_resolution_dead_in_universe (hU : Univ U) {a b : Desc} (ha : Drawn U a) (hb : Drawn U b) :
+    conflictsExist (mergeAcc false 0 a b).this = false := by
+  rw [mergeAcc_eq_loop hU a hb]; exact drawn_no_conflicts hU (loop_drawn ha hb)
+
+/-! ### The change reported by a LOCAL CAS (`cas = true`) — the change that is gossiped most often
+
+A local CAS of the new value `b` over the pre-state `a` accepts `b`'s newer entries and turns every
+entry of `a` that is missing from `b` (and has not left) into a tombstone stamped `now`; the reported
+change holds the accepted entries AND those tombstones. The tombstones need not be contents of `U`. -/
+
+/-- merged into a replica holding the pre-state, the change of a local CAS reproduces the post-CAS
+state — provided the clock is not behind the entries the CAS removes (needed:
+`cas_change_insufficient_when_clock_behind`) -/
+theorem cas_change_sufficient (hU : Univ U) {a b ch : Desc} {now : Int} (ha : Drawn U a) (hb : Drawn U b)
+    (hnow : now ≥ 1) (hclock : ∀ t ∈ a, t.state ≠ .LEFT → get? b t.id = none → t.ts ≤ now)
+    (hch : (merge true now a b).change = some ch) (k : String) :
+    get? (mergeState a ch) k = get? (merge true now a b).state k :=
+  cas_change_sufficient_view hU ha hb hnow hclock hch k
+
+/-- … and merged into ANY replica `s` that already contains the pre-state it yields the same content
+as merging the whole post-CAS state (no condition on the clock) -/
+theorem cas_change_sufficient_above (hU : Univ U) {a b ch s : Desc} {now : Int} (ha : Drawn U a) (hb : Drawn U b)
+    (hs : Drawn U s) (hcontains : ∀ k, rkO (get? a k) ≤ rkO (get? s k)) (hnow : now ≥ 1)
+    (hch : (merge true now a b).change = some ch) (k : String) :
+    get? (mergeState s ch) k = get? (mergeState s (merge true now a b).state) k :=
+  cas_change_sufficient_above_view hU ha hb hs hcontains hnow hch k
+
 /-! ### Why the provisos are needed (witnesses, checked by evaluation) -/
 
 /-- the local-CAS mode is not commutative, as the code's comment says -/
@@ -91,6 +132,82 @@ theorem cas_breaks_comm :
 theorem merge_comm_fails_at_zero :
     get? (mergeState [{ id := "a", ts := 0 }] []) "a" ≠ get? (mergeState [] [{ id := "a", ts := 0 }]) "a" := by
   decide
+
+/-- the receiver must already be normalised: the code sorts the INCOMING token lists only, so a
+replica holding an unsorted list keeps it while its peer stores the sorted one -/
+theorem merge_comm_fails_on_unnormalised_receiver :
+    get? (mergeState [{ id := "a", ts := 1, tokens := [5, 1] }] []) "a" ≠
+    get? (mergeState [] [{ id := "a", ts := 1, tokens := [5, 1] }]) "a" := by decide
+
+/-- a local CAS whose clock is behind the entry it removes stamps a tombstone that no replica
+holding the pre-state accepts: the change is then NOT sufficient -/
+theorem cas_change_insufficient_when_clock_behind :
+    ∃ ch, (merge true 3 [{ id := "a", ts := 5 }] []).change = some ch ∧
+      get? (mergeState [{ id := "a", ts := 5 }] ch) "a" ≠ get? (merge true 3 [{ id := "a", ts := 5 }] []).state "a" :=
+  ⟨_, rfl, by decide⟩
+
+/-! #### `noclash` over ALL timestamps is needed: a token handed over between two instances
+
+Instance `a` holds token 7 at timestamp 1 and has given it up at timestamp 2; instance `b` claims it at
+timestamp 3 — the two claims are at disjoint times, every (id, timestamp) has one content, all
+contents are normalised. Only `Univ.noclash` fails. Two replicas that receive the same three updates
+in two orders end with different token lists for `b`, permanently (all timestamps agree, so no
+further delivery of these updates repairs it). -/
+
+def Uh (id : String) (ts : Int) (l : Bool) : Inst :=
+  { id := id, ts := ts, state := if l then .LEFT else .ACTIVE,
+    tokens := if l then [] else if id = "a" ∧ ts < 2 then [7] else if id = "b" ∧ ts > 2 then [7] else [] }
+
+def hA1 : Desc := [Uh "a" 1 false]
+def hA2 : Desc := [Uh "a" 2 false]
+def hB3 : Desc := [Uh "b" 3 false]
+
+/-- `Uh` meets every clause of `Univ` except `noclash` -/
+theorem handover_universe_coherent :
+    (∀ id ts l, (Uh id ts l).id = id) ∧ (∀ id ts l, (Uh id ts l).ts = ts) ∧
+    (∀ id ts l, (Uh id ts l).state = .LEFT ↔ l = true) ∧
+    (∀ id ts l, sortedStrict (Uh id ts l).tokens = true) ∧ (∀ id ts, (Uh id ts true).tokens = []) := by
+  refine ⟨fun _ _ _ => rfl, fun _ _ _ => rfl, ?_, ?_, fun _ _ => rfl⟩
+  · intro id ts l; cases l <;> simp [Uh]
+  · intro id ts l
+    cases l
+    · simp only [Uh, Bool.false_eq_true, if_false]
+      split
+      · rfl
+      · split <;> rfl
+    · rfl
+
+/-- **convergence fails when a token is claimed by two ids, even at disjoint times.** The three
+updates are drawn from `Uh`; delivered as `[a@1, a@2, b@3]` instance `b` ends holding `[7]`, delivered
+as `[a@1, b@3, a@2]` it ends holding `[]` (the collision with the stale `a@1` was resolved in `a`'s
+favour and nothing ever gives the token back); all timestamps and states agree on both replicas, and
+both end states are stable under re-delivery of any of the three updates. -/
+theorem merge_diverges_on_token_handover :
+    (Drawn Uh hA1 ∧ Drawn Uh hA2 ∧ Drawn Uh hB3) ∧
+    [hA1, hA2, hB3].Perm [hA1, hB3, hA2] ∧
+    (get? ([hA1, hA2, hB3].foldl mergeState []) "b").map (·.tokens) = some [7] ∧
+    (get? ([hA1, hB3, hA2].foldl mergeState []) "b").map (·.tokens) = some [] ∧
+    (∀ k, (get? ([hA1, hA2, hB3].foldl mergeState []) k).map rk = (get? ([hA1, hB3, hA2].foldl mergeState []) k).map rk) ∧
+    (∀ d ∈ [hA1, hA2, hB3],
+      mergeState ([hA1, hA2, hB3].foldl mergeState []) d = [hA1, hA2, hB3].foldl mergeState [] ∧
+      mergeState ([hA1, hB3, hA2].foldl mergeState []) d = [hA1, hB3, hA2].foldl mergeState []) := by
+  refine ⟨⟨⟨by decide, by decide, by decide⟩, ⟨by decide, by decide, by decide⟩, ⟨by decide, by decide, by decide⟩⟩,
+    List.Perm.cons _ (List.Perm.swap _ _ _), by decide, by decide, ?_, by decide⟩
+  intro k
+  have e1 : [hA1, hA2, hB3].foldl mergeState [] = [Uh "a" 2 false, Uh "b" 3 false] := by decide
+  have e2 : [hA1, hB3, hA2].foldl mergeState [] = [Uh "a" 2 false, { Uh "b" 3 false with tokens := [] }] := by decide
+  rw [e1, e2]
+  simp only [get?]
+  split
+  · rfl
+  · split <;> rfl
+
+/-- the same with overlapping claims (the audit's example): `a` still holds 7 when `b` claims it -/
+theorem merge_diverges_on_token_clash :
+    (get? ([[{ id := "a", ts := 1, tokens := [7] }], [{ id := "b", ts := 2, tokens := [7] }], [{ id := "a", ts := 3 }]].foldl
+        mergeState []) "b").map (·.tokens) = some [] ∧
+    (get? ([[{ id := "a", ts := 1, tokens := [7] }], [{ id := "a", ts := 3 }], [{ id := "b", ts := 2, tokens := [7] }]].foldl
+        mergeState []) "b").map (·.tokens) = some [7] := by decide
 
 /-! ### Partition ring (`PartitionRingDesc.mergeWithTime`, model `Model/C03P.lean`)
 
@@ -126,6 +243,67 @@ theorem pconverge_perm (s : C03P.PDesc) {l l' : List C03P.PDesc} (hp : l.Perm l'
     (hl : ∀ d ∈ l, PfC03P.WF d) (hc : ∀ x ∈ l, ∀ y ∈ l, PfC03P.Coherent x y) :
     PfC03P.Equiv (l.foldl C03P.mergeState s) (l'.foldl C03P.mergeState s) :=
   PfC03P.converge_perm s hp hs hl hc
+
+/-- … and in any multiplicity: re-delivering an update that was already merged changes nothing
+(absorption, not only `a ⊔ a = a`) -/
+theorem pconverge_dup (s : C03P.PDesc) {l : List C03P.PDesc} {d : C03P.PDesc} (hs : PfC03P.WF s)
+    (hl : ∀ d ∈ l, PfC03P.WF d) (hd : d ∈ l) :
+    PfC03P.Equiv (C03P.mergeState (l.foldl C03P.mergeState s) d) (l.foldl C03P.mergeState s) :=
+  PfC03P.converge_dup s l d hs hl hd
+
+/-- the change reported by a partition-ring merge is sufficient: merged into the pre-merge state … -/
+theorem pchange_sufficient (a b ch : C03P.PDesc) (ha : PfC03P.WF a) (hb : PfC03P.WF b)
+    (hch : (C03P.merge false 0 a b).change = some ch) :
+    PfC03P.Equiv (C03P.mergeState a ch) (C03P.mergeState a b) :=
+  PfC03P.change_sufficient_view a b a ch ha hb ha (PfC03P.contains_refl a) hch
+
+/-- … or into any replica `s` that already contains that state (`PfC03P.Contains a s`: every partition
+of `a` is known to `s` with both registers at least as new, every owner of `a` is in `s` at least as
+new), it yields the same content as merging the full incoming descriptor. -/
+theorem pchange_sufficient_above (a b s ch : C03P.PDesc) (ha : PfC03P.WF a) (hb : PfC03P.WF b) (hs : PfC03P.WF s)
+    (hcontains : PfC03P.Contains a s) (hch : (C03P.merge false 0 a b).change = some ch) :
+    PfC03P.Equiv (C03P.mergeState s ch) (C03P.mergeState s b) :=
+  PfC03P.change_sufficient_view a b s ch ha hb hs hcontains hch
+
+/-- `Contains` is what a replica gets by merging anything on top of `a` -/
+theorem pcontains_after_merge (a c : C03P.PDesc) (ha : PfC03P.WF a) (hc : PfC03P.WF c) :
+    PfC03P.Contains a (C03P.mergeState a c) := PfC03P.contains_merge a c ha hc
+
+/-- a partition-ring merge that reports no change leaves the state untouched (any flags, any inputs) -/
+theorem pno_change_no_effect (cas : Bool) (now : Int) (a b : C03P.PDesc)
+    (h : (C03P.merge cas now a b).change = none) : (C03P.merge cas now a b).state = a :=
+  PfC03P.no_change_no_effect cas now a b h
+
+/-- and no change is reported exactly when nothing incoming is newer -/
+theorem pno_change_iff (a b : C03P.PDesc) (ha : PfC03P.WF a) (hb : PfC03P.WF b) :
+    (C03P.merge false 0 a b).change = none ↔
+      (∀ k o, C03P.getP b.parts k = some o → ∃ t, C03P.getP a.parts k = some t ∧
+          PfC03P.srk (PfC03P.sreg o) ≤ PfC03P.srk (PfC03P.sreg t) ∧ PfC03P.lrk (PfC03P.lreg o) ≤ PfC03P.lrk (PfC03P.lreg t)) ∧
+      (∀ k, PfC03P.orkO (C03P.getO b.owners k) ≤ PfC03P.orkO (C03P.getO a.owners k)) :=
+  PfC03P.no_change_iff a b ha hb
+
+/-! #### non-vacuity: two DIFFERENT coherent well-formed partition rings with two partitions -/
+
+def pA : C03P.PDesc :=
+  { parts := [{ id := 1, tokens := [5], state := 1, stateTs := 3 },
+              { id := 2, tokens := [9], state := 2, stateTs := 1, locked := true, lockedTs := 2 }],
+    owners := [{ id := "o", part := 1, state := 1, ts := 4 }] }
+def pB : C03P.PDesc :=
+  { parts := [{ id := 1, tokens := [5], state := 2, stateTs := 4 },
+              { id := 2, tokens := [9], state := 2, stateTs := 1, locked := false, lockedTs := 1 }],
+    owners := [{ id := "o", part := 1, state := 2, ts := 4 }, { id := "p", part := 2, state := 1, ts := 2 }] }
+
+example : PfC03P.WF pA ∧ PfC03P.WF pB := ⟨⟨by decide, by decide, by decide⟩, ⟨by decide, by decide, by decide⟩⟩
+example : PfC03P.Coherent pA pB := PfC03P.coherent_of_mem pA pB (by decide) (by decide)
+example : pA ≠ pB ∧ C03P.mergeState pA pB ≠ pA ∧ C03P.mergeState pA pB ≠ pB := by decide
+-- partition 1 takes the newer state, partition 2 keeps the newer lock, owner "o" the same-second
+-- deletion, owner "p" is new: the reported change holds exactly partition 1 and both owners
+example : (C03P.merge false 0 pA pB).change =
+    some { parts := [{ id := 1, tokens := [5], state := 2, stateTs := 4 }],
+           owners := [{ id := "o", part := 1, state := 2, ts := 4 }, { id := "p", part := 2, state := 1, ts := 2 }] } := by
+  decide
+-- a second, different replica containing pA, and a nil change in the other direction
+example : (C03P.merge false 0 (C03P.mergeState pA pB) pA).change = none := by decide
 
 -- non-vacuity: a pending→active state change and a same-second owner deletion are both accepted
 example : C03P.mergeState
@@ -171,5 +349,17 @@ theorem dB_drawn : Drawn U0 dB :=
 -- the merge is not trivial on these: `a` takes the newer LEAVING entry, `b` the same-timestamp tombstone
 example : (mergeState dA dB) = [U0 "a" 2 false, U0 "b" 3 true] := by decide
 example : ((merge false 0 dA dB).change).isSome = true := by decide
+
+-- a local CAS over dA whose new value lacks `b` and carries a newer `a`: `a` is accepted, `b` becomes a
+-- tombstone stamped 4; the change holds both and meets the hypotheses of `cas_change_sufficient`
+def dC : Desc := [U0 "a" 2 false]
+
+theorem dC_drawn : Drawn U0 dC :=
+  ⟨by decide, by intro e he; simp [dC] at he; subst he; simp [U0],
+   by intro e he; simp [dC] at he; subst he; simp [U0]⟩
+
+example : (merge true 4 dA dC).state = [U0 "a" 2 false, { U0 "b" 3 false with state := .LEFT, tokens := [], ts := 4 }] := by decide
+example : (merge true 4 dA dC).change = some [U0 "a" 2 false, { U0 "b" 3 false with state := .LEFT, tokens := [], ts := 4 }] := by decide
+example : ∀ t ∈ dA, t.state ≠ .LEFT → get? dC t.id = none → t.ts ≤ 4 := by decide
 
 end PC03
